@@ -4,8 +4,9 @@ import Thanos.Model.Sharding
   third-party): selectors, pointwise functions / filters, aggregations `by` / `without` of any
   nesting depth, with any aggregation operator, and vector matching `on` / `ignoring`
   (one-to-one arithmetic, comparison filters, `and`, `unless`, `or`).  Values are `Int` (the harness uses
-  integer-valued samples); an aggregation operator is a function of the group's values in input
-  order, so no commutativity is assumed.
+  integer-valued samples); an aggregation operator is a function of the group's member series (labels
+  and values, so that `histogram_quantile` can read `le`) in input order; no commutativity is
+  assumed.
 -/
 namespace Thanos.Sharding
 
@@ -23,15 +24,15 @@ def nub {α : Type} [DecidableEq α] : List α → List α
 inductive VExpr where
   | sel (p : Labels → Bool)
   | fn (g : Labels → Int → Option Series) (e : VExpr)
-  | agg (key : Labels → Labels) (op : List Int → Int) (e : VExpr)
+  | agg (key : Labels → Labels) (op : List Series → Int) (e : VExpr)
   /-- vector matching: every series of the left operand is combined with the series of the right
       operand that has the same signature, if any (`+ on(..)`, comparisons, `and`, `unless`) -/
   | binL (sig : Labels → Labels) (f : Series → Option Series → Option Series) (l r : VExpr)
   /-- concatenation (the two halves of `or`) -/
   | append (l r : VExpr)
 
-def groupAgg (key : Labels → Labels) (op : List Int → Int) (v : Vec) : Vec :=
-  (nub (v.map fun s => key s.1)).map fun k => (k, op ((v.filter fun s => key s.1 = k).map (·.2)))
+def groupAgg (key : Labels → Labels) (op : List Series → Int) (v : Vec) : Vec :=
+  (nub (v.map fun s => key s.1)).map fun k => (k, op (v.filter fun s => key s.1 = k))
 
 def eval : VExpr → Vec → Vec
   | .sel p, s => s.filter fun x => p x.1
@@ -50,6 +51,12 @@ def keyBy (L : List String) (ls : Labels) : Labels := ls.filter fun l => L.conta
 /-- grouping key of `op without (L) (…)`: every label not in `L`, the metric name dropped -/
 def keyWithout (L : List String) (ls : Labels) : Labels :=
   ls.filter fun l => !(L.contains l.1) && l.1 != "__name__"
+
+/-- `group_left (inc)` / `group_right (inc)`: the labels named in `inc` are taken from the "one"
+    side (label order inside a label set is not modelled; the shard projection is a filter, which
+    distributes over the concatenation) -/
+def withInc (inc : List String) (many one : Labels) : Labels :=
+  (many.filter fun l => !inc.contains l.1) ++ one.filter fun l => inc.contains l.1
 
 /-- functions such as `abs`, `rate`, arithmetic with a scalar: the metric name is dropped -/
 def dropName (ls : Labels) : Labels := ls.filter fun l => l.1 != "__name__"
